@@ -138,6 +138,10 @@ def explicit_cases():
         dict(base, view="millis", a=1, b=5.0),
         dict(base, view="seconds", a={"str": "1"}, b=None),
         dict(base, N=0, view="samples", a=-1, b=1),
+        dict(base, view="samples", a=0.0, b=3),
+        dict(base, view="millis", a=0.0, b=300),
+        dict(base, view="seconds", a={"str": ""}, b=0.3),
+        dict(base, view="samples", a={"str": ""}, b=None),
     ]
 
 
@@ -173,9 +177,10 @@ def strategy(draw):
     if r == 0:
         step = draw(st.sampled_from([1, 2, -1]))
     elif r == 1:
-        wrong = {"samples": st.one_of(st.floats(-5, 5, allow_nan=False), st.just({"str": "2"})),
-                 "millis": st.one_of(st.floats(-5, 5, allow_nan=False), st.just({"str": "2"})),
-                 "seconds": st.just({"str": "0.5"})}[view]
+        falsy = st.sampled_from([0.0, -0.0, {"str": ""}])
+        wrong = {"samples": st.one_of(st.floats(-5, 5, allow_nan=False), st.just({"str": "2"}), falsy),
+                 "millis": st.one_of(st.floats(-5, 5, allow_nan=False), st.just({"str": "2"}), falsy),
+                 "seconds": st.sampled_from([{"str": "0.5"}, {"str": ""}])}[view]
         if draw(st.booleans()):
             a = draw(wrong)
         else:
@@ -183,21 +188,37 @@ def strategy(draw):
     return dict(base, view=view, a=a, b=b, step=step)
 
 
+MS_RATES = (8, 10, 100, 160, 1000, 8000, 11025, 16000, 44100, 48000)
+
+
+def _exh_ms(sr, N):
+    """every integer millisecond bound that falls inside (or just around) a region of N samples"""
+    span = (N * 1000) // sr + 3
+    lo = max(-span, -1500)
+    hi = min(span, 1500)
+    for t in range(lo, hi + 1):
+        yield dict(sr=sr, sw=2, ch=2, N=N, salt=sr, view="millis", a=t, b=None)
+        yield dict(sr=sr, sw=2, ch=2, N=N, salt=sr, view="millis", a=None, b=t)
+
+
 def jobs(tier, seed):
     bd = BOUNDS[tier]
     out = [{"name": f"exh-sw{sw}-ch{ch}", "kind": "exh", "sw": sw, "ch": ch, "maxlen": bd["maxlen"]}
            for sw in (1, 2, 4) for ch in (1, 2, 3)]
+    out += [{"name": f"exh-ms-{sr}", "kind": "exh_ms", "sr": sr, "N": min(max(sr * 3 // 2, 12), 3000)} for sr in MS_RATES]
     out += [{"name": f"hyp-{i}", "kind": "hyp", "seed": seed * 1000 + i, "n": bd["n"]} for i in range(16)]
     return out
 
 
 def run_job(job, rec):
     mod = sys.modules[__name__]
-    if job["kind"] == "exh":
+    if job["kind"] == "exh_ms":
+        run_cases(mod, _exh_ms(job["sr"], job["N"]), rec)
+    elif job["kind"] == "exh":
         run_cases(mod, _exh(job["sw"], job["ch"], job["maxlen"]), rec)
     else:
         hyp_run(mod, strategy(), rec, job["seed"], job["n"])
 
 
 def extra_coverage(tier):
-    return {"exhaustive_part": f"regions of 0..{BOUNDS[tier]['maxlen']} samples x width 1/2/4 x 1-3 channels x all sample slices with bounds in {{None}} U [-15,15]"}
+    return {"exhaustive_part": f"regions of 0..{BOUNDS[tier]['maxlen']} samples x width 1/2/4 x 1-3 channels x all sample slices with bounds in {{None}} U [-15,15]; plus, for each rate in {list(MS_RATES)}, a region of min(1.5 s, 3000 samples) and every integer millisecond bound inside or just around it as start or as stop (millis view vs seconds view vs exact oracle)"}
